@@ -35,14 +35,22 @@ def cases(tier, seed):
     out = []
     for i in range(n):
         rng = gen.rng_for(seed, ID, i)
-        kw = dict(seasons=(1, 2), p_gw=0.15, p_custom=0.2, hostile=(i % 4 == 0), p_bunds=0.2, p_mulch=0.2)
+        kw = dict(seasons=(1, 2), p_gw=0.15, p_custom=0.2, hostile=(i % 4 == 0), p_bunds=0.2, p_mulch=0.2,
+                  flags=(i % 2 == 1))
         if i % 3 == 0:
             kw.update(methods=(0,))       # rainfed bases for the 'neutral value vs off' family
         if i % 4 == 1:
             kw.update(off_season=True, p_ffm=0.5, pre=(5, 40, 90))   # fallow days: the fallow management acts
         if i % 4 == 2:
             kw.update(off_season=False, seasons=(2, 3))               # season resets act
+        if i % 6 == 5:
+            kw.update(crops=["Potato", "SugarBeet", "PotatoGDD", "SugarBeetGDD", "Tomato", "Wheat"], flags=False)
         sp = gen.config(rng, **kw)
+        if i % 6 == 5:
+            # options that make the crop calendar take its less travelled branches
+            sp["crop"]["kw"]["Determinant"] = 1
+        if i % 12 == 3 and common.crop_catalogue()[sp["crop"]["name"]]["CalendarType"] == 1:
+            sp["crop"]["kw"]["SwitchGDD"] = 1
         if i % 8 == 1:
             # in-season curve-number adjustment on (its fallow twin stays off)
             sp.setdefault("fm", {}).update(curve_number_adj=True, curve_number_adj_pct=float(gen.pick(rng, [-10, 10, 25])))
@@ -188,10 +196,11 @@ def run_case(case):
     if B.status != "ok":
         return base.finish(spec, B, acc, False, instruments=("step",))
     d0 = sim.tables_digest(B)
-    h = getattr(kw["crop"], "harvest_date", None)
+    # the latest harvest date the model computed itself: month/day of the first scheduled one
     ctx = {"harvest_written_back": None}
-    if isinstance(h, str) and "/" in h:
-        m, d_ = h.split("/")
+    hd = B.trace.init.get("harvest") or []
+    if len(hd):
+        m, d_ = hd[0].month, hd[0].day
         if not (int(m) == 2 and int(d_) == 29):
             ctx["harvest_written_back"] = f"{int(m):02d}/{int(d_):02d}"
     plans = []
